@@ -417,6 +417,10 @@ func (n *PathSelectorNode) Get(src, dst reflect.Value) error {
 	case reflect.Struct:
 		typ := src.Type()
 		for i := 0; i < typ.NumField(); i++ {
+			if runtime.IsIgnoredStructField(typ.Field(i)) {
+				// an unexported or "-" field is no member of the document ( and reflect does not hand its value out )
+				continue
+			}
 			tag := runtime.StructTagFromField(typ.Field(i))
 			child, found, err := n.Field(tag.Key)
 			if err != nil {
@@ -638,6 +642,10 @@ func (n *PathRecursiveNode) Get(src, dst reflect.Value) error {
 	case reflect.Struct:
 		typ := src.Type()
 		for i := 0; i < typ.NumField(); i++ {
+			if runtime.IsIgnoredStructField(typ.Field(i)) {
+				// an unexported or "-" field is no member of the document ( and reflect does not hand its value out )
+				continue
+			}
 			tag := runtime.StructTagFromField(typ.Field(i))
 			child, found, err := n.Field(tag.Key)
 			if err != nil {
